@@ -29,7 +29,7 @@ import (
 
 const rule = "cases = (setup history, transaction program of n write operations, prefix length k<=n, ending in {commit, abort, returned error, panic x 5 value kinds}, managed or unmanaged); " +
 	"every prefix of every program is executed with every ending; distinct by (pool, setup, program, k, ending); non-trivial when at least one write of the prefix succeeded; " +
-	"concurrent half: single-snapshot reads of a key set stamped per committed transaction"
+	"concurrent half: single-snapshot reads of a key set stamped per committed transaction; Allow headers while transactions flip a path between disjoint method sets; requests while a transaction moves a route between two methods (never 404, never a mixed Allow)"
 
 type caseFile struct {
 	hist.Case
@@ -50,9 +50,9 @@ func main() {
 		check(run, c)
 		return
 	}
-	n := run.Pick(400, 12000)
+	n := run.Pick(400, 30000)
 	if run.Mode() == "race" {
-		n = run.Pick(40, 600)
+		n = run.Pick(40, 1500)
 	}
 	const per = 10
 	run.Parallel(n/per, func(batch int) {
